@@ -191,7 +191,7 @@ func TestRoundTrip(t *testing.T) {
 		name := fmt.Sprintf("rt/secret-%d", i)
 		total += len(val)
 		cl := setec.Client{Server: s.srv.URL}
-		if i%4 == 1 {
+		if i%4 == 1 || len(val) == 0 {
 			// the name has a past: two earlier versions, the newer one deleted again -- what is put now must still
 			// come back under the version number the put reports
 			cl.Put(ctx, name, []byte("an earlier value"))
